@@ -148,9 +148,12 @@ impl WriteAheadLog {
 
         let file = open_segment(&segment_path).await?;
         let current_size = file.metadata().await.map_err(map_io_error)?.len();
+        // Never hand out a sequence number at or below the recorded flushed mark:
+        // truncation may have removed every segment that still held an entry.
+        let flushed_seq = load_flushed_seq(&config.wal_dir)?;
         let next_seq = match last_sequence_in_segments(&segments)? {
-            Some(last_seq) => last_seq + 1,
-            None => 1,
+            Some(last_seq) => last_seq.max(flushed_seq) + 1,
+            None => flushed_seq + 1,
         };
 
         Ok(Self {
